@@ -165,6 +165,95 @@ def fista_step(c, form='function', adaptive=True):
         c.holds('k_incremented', val['k'] == 8)
 
 
+# ---------------------------------------------------------------------------------------------
+# Levenberg-Marquardt: invariant r = A(x), J = jac(x), g = J^T r on the cut loop; exit through the gradient criterion
+# ---------------------------------------------------------------------------------------------
+def lm_loop(c, m=2, n=2):
+    A = lambda v: np.array([c.uf(f'res{i}', *list(v)) for i in range(m)], dtype=object if c.sym else float)
+    Jf = lambda v: np.array([[c.uf(f'jac{i}{j}', *list(v)) for j in range(n)] for i in range(m)], dtype=object if c.sym else float)
+    x0 = c.vec('x0', n); gradtol = c.real('gradtol', lo=0, hi=1)
+    s = S.LM(A, x0, Jf, maxit=10 ** 6, gradtol=gradtol, nu0=1e-3, sparse=False)
+    pre, cond, body, post, names, info = loops.split_loop(S.LM.solve, 0)
+    tag, st = pre({'self': s})
+    c.eq('init_r_is_residual_at_x0', st['r'], A(x0)); c.eq('init_J_is_jacobian_at_x0', st['J'], Jf(x0))
+    c.eq('init_g_is_JT_r', st['g'], Jf(x0).T @ A(x0)); c.eq('init_gradient_norm', st['ng'] * st['ng'], np.sum((Jf(x0).T @ A(x0)) ** 2))
+    c.eq('reference_gradient_norm_is_initial', st['ng0'], st['ng'])
+    # one arbitrary iteration from a state satisfying the invariant
+    xk = c.vec('xk', n); nu = c.real('nu', pos=True); ng0 = c.real('ng0', pos=True)
+    gk = Jf(xk).T @ A(xk)
+    st1 = dict(st); st1.update(x=xk, r=A(xk), J=Jf(xk), g=gk, ng=c.sqrt(np.sum(gk ** 2)), ng0=ng0, nu=nu, f=0.5 * (A(xk) @ A(xk)), i=3)
+    tag, st2 = body(st1)
+    c.holds('body_falls_through', tag == '__next')
+    x2 = st2['x']
+    c.eq('inv_r_is_residual_at_current_x', st2['r'], A(x2)); c.eq('inv_J_is_jacobian_at_current_x', st2['J'], Jf(x2))
+    c.eq('inv_g_is_JT_r', st2['g'], Jf(x2).T @ A(x2)); c.eq('inv_gradient_norm', st2['ng'] * st2['ng'], np.sum((Jf(x2).T @ A(x2)) ** 2))
+    c.holds('gradient_norm_nonnegative', st2['ng'] >= 0)
+    c.eq('reference_norm_kept', st2['ng0'], ng0)
+    if c.sym: unchanged = all(core.T(a).eq(core.T(b)) for a, b in zip(x2, xk))
+    else: unchanged = bool(np.array_equal(np.asarray(x2, dtype=float), np.asarray(xk, dtype=float)))
+    if unchanged:
+        c.holds('rejected_step_increases_damping', st2['nu'] > nu)
+    else:
+        c.eq('accepted_iterate_is_damped_gauss_newton_step', (Jf(xk).T @ Jf(xk) + nu * np.eye(n)) @ (xk - x2), gk)
+        c.holds('accepted_step_does_not_increase_damping', st2['nu'] <= nu)
+    if not bool(cond(st2)):
+        tagp, ret = post(st2)
+        xr, inf = ret
+        c.eq('returns_current_iterate', xr, x2)
+        c.holds('exit_through_gradient_criterion_gives_stationarity_bound', c.Or(c.sqrt(np.sum((Jf(xr).T @ A(xr)) ** 2)) <= gradtol * ng0, st2['i'] >= 10 ** 6))
+        c.eq('info_func_is_residual_at_solution', inf['func'], A(xr)); c.eq('info_jac_is_jacobian_at_solution', inf['Jac'], Jf(xr))
+
+
+# ---------------------------------------------------------------------------------------------
+# SciPy wrappers: what is passed in and what is handed back
+# ---------------------------------------------------------------------------------------------
+def scipy_wrappers(c, which):
+    calls = {}
+    x = c.vec('xs', 2)
+    def fake_minimize(func, x0, jac=None, method=None, **kw):
+        calls.update(func=func, x0=x0, jac=jac, method=method, kw=kw)
+        return dict(x=x, success='SUCC', message='MSG', fun='FUN', jac='JAC', nit='NIT', nfev='NFEV')
+    def fake_lbfgsb(func, x0, fprime=None, approx_grad=0, **kw):
+        calls.update(func=func, x0=x0, jac=fprime, approx_grad=approx_grad, kw=kw)
+        return (x, 'FUN', dict(warnflag=calls.get('warn', 0), grad='GRAD', nit='NIT', funcalls='NFEV', task='TASK'))
+    def fake_ls(func, x0, jac=None, method=None, loss=None, xtol=None, max_nfev=None):
+        calls.update(func=func, x0=x0, jac=jac, method=method, loss=loss, xtol=xtol, max_nfev=max_nfev)
+        return dict(x=x, success='SUCC', message='MSG', fun='FUN', jac='JAC', nfev='NFEV')
+    saved = (S.opt, S.fmin_l_bfgs_b, S.least_squares)
+    import types
+    S.opt = types.SimpleNamespace(minimize=fake_minimize); S.fmin_l_bfgs_b = fake_lbfgsb; S.least_squares = fake_ls
+    try:
+        f = lambda v: c.uf('obj', *list(v)); g = lambda v: np.array([c.uf(f'gobj{i}', *list(v)) for i in range(2)], dtype=object if c.sym else float)
+        x0 = c.vec('x0', 2); v = c.vec('v', 2)
+        if which in ('minimize', 'maximize'):
+            cls = getattr(S, which)
+            sol, info = cls(f, x0, gradfunc=g, method='BFGS', tolx=3).solve()
+            sign = -1 if which == 'maximize' else 1
+            c.eq('objective_passed_with_correct_sign', calls['func'](v), sign * f(v)); c.eq('gradient_passed_with_correct_sign', calls['jac'](v), sign * g(v))
+            c.holds('start_method_and_options_passed_through', calls['x0'] is x0 and calls['method'] == 'BFGS' and calls['kw'] == dict(tolx=3))
+            c.holds('solution_is_scipys_x', sol is x)
+            c.holds('info_fields_from_the_right_keys', info == dict(success='SUCC', message='MSG', func='FUN', grad='JAC', nit='NIT', nfev='NFEV'), note=str(info))
+            sol2, _ = cls(f, x0).solve()
+            c.holds('no_gradient_means_none_is_passed', calls['jac'] is None)
+        elif which == 'L_BFGS_B':
+            sol, info = S.L_BFGS_B(f, x0, gradfunc=g, maxiter=7).solve()
+            c.eq('objective_passed_unchanged', calls['func'](v), f(v)); c.eq('gradient_passed_unchanged', calls['jac'](v), g(v))
+            c.holds('exact_gradient_flag', calls['approx_grad'] == 0 and calls['kw'] == dict(maxiter=7))
+            c.holds('solution_is_scipys_x', sol is x)
+            c.holds('info_fields_from_the_right_keys', info == dict(success=1, message='Optimization terminated successfully.', func='FUN', grad='GRAD', nit='NIT', nfev='NFEV'), note=str(info))
+            S.L_BFGS_B(f, x0).solve()
+            c.holds('approximate_gradient_flag_without_gradient', calls['approx_grad'] == 1 and calls['jac'] is None)
+            calls['warn'] = 1; _, i1 = S.L_BFGS_B(f, x0).solve(); calls['warn'] = 2; _, i2 = S.L_BFGS_B(f, x0).solve()
+            c.holds('failure_flags_reported', i1['success'] == 0 and i2['success'] == 0 and i2['message'] == 'TASK')
+        else:
+            sol, info = S.LS(f, x0, jacfun=g, method='lm', loss='huber', tol=1e-3, maxit=50).solve()
+            c.holds('arguments_passed_through', calls['func'] is f and calls['jac'] is g and calls['method'] == 'lm' and calls['loss'] == 'huber' and calls['xtol'] == 1e-3 and calls['max_nfev'] == 50 and calls['x0'] is x0)
+            c.holds('solution_is_scipys_x', sol is x)
+            c.holds('info_fields_from_the_right_keys', info == dict(success='SUCC', message='MSG', func='FUN', jac='JAC', nfev='NFEV'), note=str(info))
+    finally:
+        S.opt, S.fmin_l_bfgs_b, S.least_squares = saved
+
+
 def jobs(tier):
     J = []
     F = lambda *n: [f"{M}:{x}" for x in n]
@@ -180,4 +269,7 @@ def jobs(tier):
         J.append(Job(f'PCGLS.solve:loop0:{form}', lambda c, form=form: cgls_step(c, form, True), 'Pinf', F('PCGLS.solve', 'PCGLS._apply_A', 'PCGLS._apply_Pinv'), _extra))
         for ad in (True, False):
             J.append(Job(f'FISTA.solve:loop0:{form}:adaptive={ad}', lambda c, form=form, ad=ad: fista_step(c, form, ad), 'Pinf', F('FISTA.solve'), _extra))
+    J.append(Job('LM.solve:loop0:invariant_and_exit', lm_loop, 'Pbox', F('LM.solve', 'LM.__init__'), _extra, maxpaths=2048, timeout=900, rtol=1e-5))
+    for w in ('minimize', 'maximize', 'L_BFGS_B', 'LS'):
+        J.append(Job(f'{w}.solve:scipy_wrapper', lambda c, w=w: scipy_wrappers(c, w), 'Pbox', F(f'{w}.solve', f'{w}.__init__'), _extra))
     return J
